@@ -220,6 +220,10 @@ func Graph(r *mon.Rng, maxTypes int) *model.Schema {
 			return allOfMotif(r)
 		case 1:
 			return arrayUnionMotif(r)
+		case 2:
+			if r.Bool() {
+				return keyDiamondMotif(r)
+			}
 		}
 	}
 	g := &graphGen{r: r, s: &model.Schema{}}
@@ -487,6 +491,7 @@ func allOfMotif(r *mon.Rng) *model.Schema {
 			s.Root.Props = append(s.Root.Props, model.P("third", opt(ref())))
 		}
 	}
+	s.Legal = true
 	return s
 }
 
@@ -537,5 +542,36 @@ func arrayUnionMotif(r *mon.Rng) *model.Schema {
 			s.Root.Props = append(s.Root.Props, model.P("w", model.Ref("@t4", "@t3", "@t5").With(model.RBool("optional", true))))
 		}
 	}
+	s.Legal = true
+	return s
+}
+
+// keyDiamondMotif: the type of a key shortcut is a union of aliases which reach the same string
+// type on two branches (no cycle anywhere): every key one of the string types accepts is a key
+// of that entry.
+func keyDiamondMotif(r *mon.Rng) *model.Schema {
+	rc := RegexTable[0]
+	id := model.Str(rc.Match[0]).With(model.RStr("regex", rc.Pattern))
+	name := model.Str("K1").With(model.REnum(`"K1"`, `"L1"`))
+	s := &model.Schema{Types: []*model.TypeDef{
+		{Name: "@t0", Root: id},
+		{Name: "@t1", Root: name},
+		{Name: "@t2", Root: model.Ref("@t0")},
+		{Name: "@t3", Root: model.Ref("@t0", "@t1")},
+		{Name: "@t4", Root: model.Ref("@t2", "@t3")},
+	}}
+	if r.Bool() {
+		s.Types[4].Root = model.Ref("@t3", "@t2")
+	}
+	key := mon.Pick(r, []string{"@t4", "@t3", "@t2"})
+	val := model.Int("1")
+	if r.Bool() {
+		val = val.With(model.RBool("optional", true))
+	}
+	s.Root = model.Obj(model.PShort(key, val), model.P("total", model.Int("2")))
+	if r.Chance(1, 3) {
+		s.Root = model.Obj(model.P("m", s.Root))
+	}
+	s.Legal = true
 	return s
 }
